@@ -7,6 +7,7 @@ package main
 
 import (
 	"fmt"
+	"math"
 	"math/rand"
 	"os"
 	"sort"
@@ -108,20 +109,20 @@ func encUpdates(c *wire.Case, us osm.Updates) {
 	c.Len(len(us))
 	for _, u := range us {
 		c.Int(int64(u.Index)).Int(int64(u.Version)).Int(u.Timestamp.Unix()).Int(int64(u.Timestamp.Nanosecond())).Int(int64(u.ChangesetID)).
-			Int(int64(u.Lat)).Int(int64(u.Lon)).Bool(u.Reverse)
+			Int(ck(u.Lat)).Int(ck(u.Lon)).Bool(u.Reverse)
 	}
 }
 func encNodes(c *wire.Case, ns osm.WayNodes) {
 	c.Len(len(ns))
 	for _, n := range ns {
-		c.Int(int64(n.ID)).Int(int64(n.Version)).Int(int64(n.ChangesetID)).Int(int64(n.Lat)).Int(int64(n.Lon))
+		c.Int(int64(n.ID)).Int(int64(n.Version)).Int(int64(n.ChangesetID)).Int(ck(n.Lat)).Int(ck(n.Lon))
 	}
 }
 func encMembers(c *wire.Case, ms osm.Members) {
 	c.Len(len(ms))
 	for _, m := range ms {
 		c.Int(typeCode(m.Type)).Int(m.Ref).Int(roleCode(m.Role)).Int(int64(m.Version)).Int(int64(m.ChangesetID)).
-			Int(int64(m.Lat)).Int(int64(m.Lon)).Int(int64(m.Orientation)).Int(nodesCode(m.Nodes))
+			Int(ck(m.Lat)).Int(ck(m.Lon)).Int(int64(m.Orientation)).Int(nodesCode(m.Nodes))
 	}
 }
 
@@ -149,7 +150,7 @@ func nodesCode(ns osm.WayNodes) int64 {
 func encPoints(c *wire.Case, ls orb.LineString) {
 	c.Len(len(ls))
 	for _, p := range ls {
-		c.Int(int64(p[0])).Int(int64(p[1]))
+		c.Int(ck(p[0])).Int(ck(p[1]))
 	}
 }
 
@@ -160,14 +161,14 @@ type dUpd struct {
 	Repr           string `json:",omitempty"`
 	TS             interface{}
 	CS             int64
-	Lat, Lon       int64
+	Lat, Lon       float64
 	Rev            bool `json:",omitempty"`
 }
 type dNode struct {
 	ID       int64
 	Version  int
 	CS       int64
-	Lat, Lon int64
+	Lat, Lon float64
 }
 type dMem struct {
 	Type     string
@@ -175,7 +176,7 @@ type dMem struct {
 	Role     string
 	Version  int
 	CS       int64
-	Lat, Lon int64
+	Lat, Lon float64
 	Orient   int
 	Nodes    []dNode `json:",omitempty"`
 }
@@ -190,14 +191,14 @@ func descUpdates(us osm.Updates) []dUpd {
 		if u.Timestamp != u.Timestamp.Round(0) {
 			repr = "monotonic"
 		}
-		r = append(r, dUpd{u.Index, u.Version, repr, relTime(u.Timestamp), int64(u.ChangesetID), int64(u.Lat), int64(u.Lon), u.Reverse})
+		r = append(r, dUpd{u.Index, u.Version, repr, relTime(u.Timestamp), int64(u.ChangesetID), u.Lat, u.Lon, u.Reverse})
 	}
 	return r
 }
 func descNodes(ns osm.WayNodes) []dNode {
 	r := make([]dNode, 0, len(ns))
 	for _, n := range ns {
-		r = append(r, dNode{int64(n.ID), n.Version, int64(n.ChangesetID), int64(n.Lat), int64(n.Lon)})
+		r = append(r, dNode{int64(n.ID), n.Version, int64(n.ChangesetID), n.Lat, n.Lon})
 	}
 	return r
 }
@@ -208,14 +209,14 @@ func descMembers(ms osm.Members) []dMem {
 		if m.Nodes != nil {
 			nd = descNodes(m.Nodes)
 		}
-		r = append(r, dMem{string(m.Type), m.Ref, m.Role, m.Version, int64(m.ChangesetID), int64(m.Lat), int64(m.Lon), int(m.Orientation), nd})
+		r = append(r, dMem{string(m.Type), m.Ref, m.Role, m.Version, int64(m.ChangesetID), m.Lat, m.Lon, int(m.Orientation), nd})
 	}
 	return r
 }
-func descPoints(ls orb.LineString) [][2]int64 {
-	r := make([][2]int64, 0, len(ls))
+func descPoints(ls orb.LineString) [][2]float64 {
+	r := make([][2]float64, 0, len(ls))
 	for _, p := range ls {
-		r = append(r, [2]int64{int64(p[0]), int64(p[1])})
+		r = append(r, [2]float64{p[0], p[1]})
 	}
 	return r
 }
@@ -663,11 +664,41 @@ type gen struct {
 	w   *wire.Writer
 }
 
-func (g *gen) coord() float64 {
-	if g.rng.Intn(6) == 0 {
-		return 0
+// ck is the exact integer under which a coordinate travels to Coq: the IEEE-754 magnitude bits with
+// the sign in front (injective on finite floats up to the sign of zero; both zeros are 0, as Go's
+// v == 0).  The model copies coordinates and tests them for zero, nothing else.
+func ck(f float64) int64 {
+	if math.IsNaN(f) || math.IsInf(f, 0) {
+		panic("coordinate outside the domain")
 	}
-	return float64(g.rng.Intn(101) - 50)
+	m := int64(math.Float64bits(f) &^ (1 << 63))
+	if math.Signbit(f) {
+		return -m
+	}
+	return m
+}
+
+// coordinates: zero, small integers, values with at most 7 decimals (what OSM stores) and values
+// with a full float64 mantissa (1/3, 0.1+0.2, the float64 neighbours of 7-decimal values, random)
+func (g *gen) coord() float64 {
+	switch k := g.rng.Intn(12); {
+	case k < 2:
+		return 0
+	case k < 7:
+		return float64(g.rng.Intn(101) - 50)
+	case k == 7:
+		return float64(g.rng.Intn(1800000000)-900000000) / 1e7
+	case k == 8:
+		return []float64{1.0 / 3, 0.1 + 0.2, -2.0 / 3, 13.400000000000002, 1e-9, -1e-8, 52.51631375}[g.rng.Intn(7)]
+	case k == 9:
+		v := float64(g.rng.Intn(1800000000)-900000000) / 1e7
+		if g.rng.Intn(2) == 0 {
+			return math.Nextafter(v, 200)
+		}
+		return math.Nextafter(v, -200)
+	default:
+		return g.rng.Float64()*180 - 90
+	}
 }
 
 // stamps: a small pool so that equal timestamps and +-1ns neighbours occur
@@ -875,7 +906,7 @@ func main() {
 	rng := wire.Rng(a.Seed)
 	w := wire.NewWriter("C15", a.Seed, a.Tier)
 	g := &gen{rng: rng, w: w}
-	w.Rule = "ways/relations of 0-8 children with 0-30 updates drawn over a small pool of timestamps (equal stamps, 1 ns neighbours), stored index-sorted / time-sorted / shuffled, indices beyond the list (12%) and negative (3%), t from {a stamp, stamp+-1ns, before all, after all}; query times and half of the update stamps are carried by time.Time values in other representations of the same instant (two fixed zones, Local, a monotonic clock reading); compose cases use t1<=t2 (and some t1>t2); the elements carry a Timestamp / Committed before, at or after update stamps (or none); every apply runs on an ordinary copy (cp := *w, cloned children, SHARED update list) and the original's list must stay as it was; after an index error the update list must be unchanged; a far-instants class uses the zero time, 1600, the int64-ns limits, 2300, Unix(2^40), 9999-12-31 for stamps and query times (times travel as seconds + nanoseconds); geometry cases are mostly fully annotated (hypotheses hold). distinct = distinct token streams; trivial = no updates / hypotheses of the agreement theorem not met / <2 elements to sort / no segment."
+	w.Rule = "coordinates of nodes, members and updates: zero, small integers, 7-decimal values and full-mantissa float64 (1/3, 0.1+0.2, float neighbours of 7-decimal values, random), carried exactly (sign + IEEE bits); ways/relations of 0-8 children with 0-30 updates drawn over a small pool of timestamps (equal stamps, 1 ns neighbours), stored index-sorted / time-sorted / shuffled, indices beyond the list (12%) and negative (3%), t from {a stamp, stamp+-1ns, before all, after all}; query times and half of the update stamps are carried by time.Time values in other representations of the same instant (two fixed zones, Local, a monotonic clock reading); compose cases use t1<=t2 (and some t1>t2); the elements carry a Timestamp / Committed before, at or after update stamps (or none); every apply runs on an ordinary copy (cp := *w, cloned children, SHARED update list) and the original's list must stay as it was; after an index error the update list must be unchanged; a far-instants class uses the zero time, 1600, the int64-ns limits, 2300, Unix(2^40), 9999-12-31 for stamps and query times (times travel as seconds + nanoseconds); geometry cases are mostly fully annotated (hypotheses hold). distinct = distinct token streams; trivial = no updates / hypotheses of the agreement theorem not met / <2 elements to sort / no segment."
 	nApply, nCompose, nLsat, nUpto, nSort, nGroup := 220, 220, 320, 50, 80, 90
 	nFar := 100
 	if a.Tier == "thorough" {
